@@ -152,10 +152,10 @@ func discharge(o *Obligation, timeout int, cross bool) SolverResult {
 	var last SolverResult
 	// the proof plan records which rung proved this obligation last time: try it first. The plan
 	// only orders the attempts; the answer always comes from a solver run on the current query.
-	if pl, ok := planFor(o.Name); ok && !cross {
+	if pl, ok := planFor(o.Name); ok {
 		q := variantQuery(o, pl.K, pl.Mode)
 		seen[q] = true
-		r := solve(q, timeout, false, false)
+		r := solve(q, timeout, cross, false)
 		if r.Status == "unsat" {
 			r.Solver += variantLabel(pl.K, pl.Mode) + " (planned)"
 			r.K, r.Mode, r.Ladder = pl.K, pl.Mode, true
@@ -213,9 +213,8 @@ func discharge(o *Obligation, timeout int, cross bool) SolverResult {
 				r.K, r.Mode, r.Ladder = k, x.mode, true
 				r.Seconds = spent + x.r.Seconds
 				got = &r
-				if !cross {
-					break
-				}
+				// (in cross-check mode solve() has already asked the other solvers about this query)
+				break
 			}
 			last = x.r
 			if x.r.Status == "sat" && x.mode == 0 {
